@@ -340,6 +340,36 @@ impl AlternateTime {
     }
 }
 
+/// Structured read-only view of a rule for external verification harnesses (feature `__verif`).
+#[cfg(feature = "__verif")]
+impl TransitionRule {
+    /// `(std, None)` for a fixed rule, `(std, Some((dst, start day, start time, end day, end time)))`
+    /// otherwise; a day is `(0, n, 0, 0)` for the zero-based day `n`, `(1, n, 0, 0)` for `Jn` and
+    /// `(2, month, week, week_day)` for `Mm.w.d`.
+    #[allow(clippy::type_complexity)]
+    pub(super) fn verif_parts(
+        &self,
+    ) -> (LocalTimeType, Option<(LocalTimeType, (u8, u16, u8, u8), i32, (u8, u16, u8, u8), i32)>)
+    {
+        fn day(d: &RuleDay) -> (u8, u16, u8, u8) {
+            match *d {
+                RuleDay::Julian0WithLeap(n) => (0, n, 0, 0),
+                RuleDay::Julian1WithoutLeap(n) => (1, n, 0, 0),
+                RuleDay::MonthWeekday { month, week, week_day } => {
+                    (2, u16::from(month), week, week_day)
+                }
+            }
+        }
+        match self {
+            TransitionRule::Fixed(ltt) => (*ltt, None),
+            TransitionRule::Alternate(a) => (
+                a.std,
+                Some((a.dst, day(&a.dst_start), a.dst_start_time, day(&a.dst_end), a.dst_end_time)),
+            ),
+        }
+    }
+}
+
 /// Parse time zone name
 fn parse_name<'a>(cursor: &mut Cursor<'a>) -> Result<&'a [u8], Error> {
     match cursor.peek() {
